@@ -617,9 +617,11 @@ class Judge(object):
                             # for that consumer; one that does wipe another request's rows is
                             # caught by the serial-equivalence rule above
                             continue
-                        if g is None and at == 0 and _created_consumer(ex.txn_info[i], ct):
-                            # null = "must not exist yet": this request created the row itself
-                            # in an earlier transaction of its own
+                        if _created_consumer(ex.txn_info[i], ct, c):
+                            # the record this request sees at its commit is the one it created
+                            # itself in an earlier transaction of its own: for the purposes of
+                            # the carried generation the consumer did not exist (null is the
+                            # only generation that may be carried for it)
                             at = None
                         rows = {t['cids'].get(c) for t in ex.txn_info[i]
                                 if 'consumers' in t['reads'] or 'consumers' in t['writes']
@@ -691,11 +693,16 @@ def _unsafe(req):
     return req['method'] == 'DELETE' and req['path'].startswith('/allocations/')
 
 
-def _created_consumer(infos, ct):
+def _created_consumer(infos, ct, c):
+    """Did this request itself insert the record of consumer c before its committing
+    transaction ct (c absent at the begin of one of its own committed transactions that wrote
+    `consumers`, present at the begin of ct)?"""
+    if c not in ct['cids']:
+        return False
     for t in infos:
         if t is ct:
             return False
-        if t['outcome'] == 'commit' and 'consumers' in t['writes']:
+        if t['outcome'] == 'commit' and 'consumers' in t['writes'] and c not in t['cids']:
             return True
     return False
 
